@@ -1127,7 +1127,26 @@ class Engine(object):
 
     def str_equal(self, a, b):
         """Structural equality of abstract strings (A-STR): same literal skeleton, same format specs, equal
-        arguments.  Different skeletons are not decided (Unsupported), never assumed unequal."""
+        arguments.  Different skeletons are not decided (Unsupported), never assumed unequal - with one exception that is
+        decidable: when every abstract part of both texts is a FIXED-POINT or INTEGER number format ("%.Nf", "%i", "%d",
+        "{:.Nf}": digits, sign and point only, reals being finite under A-REAL), the letters of the two texts come from
+        their literals alone, so texts whose letter sequences differ ARE different (an extra "L x y" segment in a path)."""
+        import re as _re
+
+        def letters(s_):
+            out = []
+            for part in s_.parts:
+                if isinstance(part, str):
+                    out.extend(ch for ch in part if ch.isalpha())
+                elif part[0] == "fmt" and isinstance(part[1], str) and _re.fullmatch(r"%?\{?:?\.?\d*[fid]\}?", part[1]):
+                    continue
+                else:
+                    return None
+            return out
+
+        la, lb = letters(a), letters(b)
+        if la is not None and lb is not None and la != lb:
+            return z3.BoolVal(False)
         if len(a.parts) != len(b.parts):
             raise Unsupported("equality of abstract strings with different skeletons")
         ts = []
@@ -1140,6 +1159,9 @@ class Engine(object):
                 raise Unsupported("equality of abstract strings with different skeletons")
             if x[0] == "chr":
                 ts.append(x[1] == y[1])
+            elif x[0] == "sym":
+                if x[1] != y[1]:
+                    raise Unsupported("equality of two different opaque text atoms")
             elif x[0] == "fmt":
                 if x[1] != y[1]:
                     raise Unsupported("equality of abstract strings with different format specs")
@@ -1588,6 +1610,20 @@ class Engine(object):
     def ev_Call(self, e, P, ctx):
         if isinstance(e.func, ast.Name) and e.func.id in ("old", "forall", "exists") and ctx.spec:
             return self.spec_form(e, P, ctx)
+        if (isinstance(e.func, ast.Name) and e.func.id == "next" and len(e.args) == 1 and isinstance(e.args[0], ast.Name)
+                and not e.keywords and not ctx.spec):
+            # next(it) for a LOCAL NAME bound to an iterator over statically known items (enumerate/zip/reversed of a list of
+            # known length): the first remaining item is returned and the name is re-bound to the rest - the iterator's
+            # state.  Sound while the iterator object is reachable through that one name only (no alias is created by the
+            # supported subset: an `items` value that is assigned to a second name is a copy of the REMAINING items at that
+            # moment, which over-approximates nothing the function under contract does - generatePath uses one name).
+            it = self.lookup(P, ctx, e.args[0].id)
+            if isinstance(it, Opaque) and it.tag == "items":
+                if not it.payload:
+                    return self.fail(P, "safe.next_exhausted#%d" % self.site(), "next() on an exhausted iterator")
+                self.assign_name(P, ctx, e.args[0].id, Opaque("items", tuple(it.payload[1:])))
+                return [(P, it.payload[0])]
+            raise Unsupported("next() on %r" % (it,))
         if isinstance(e.func, ast.Name) and e.func.id == "implies" and ctx.spec and len(e.args) == 2:
             # lazy implication: a statically false hypothesis (e.g. `v is not None` while v is None) guards the conclusion
             out = []
@@ -1817,6 +1853,7 @@ class Engine(object):
         fr = self.new_frame(P, env)
         c2 = Ctx(f.mod, f.frames + (fr,), ctx.spec, f.qual or f.name)
         self.func_stack.append(f.qual or f.name)
+        depth0 = P.depth
         P.depth += 1
         try:
             if isinstance(f.node, ast.Lambda):
@@ -1852,6 +1889,7 @@ class Engine(object):
                 else:
                     raise Unsupported("break/continue escaped function")
             if ctx.spec and len(res) > 1:
+                P.depth = depth0          # the merged value lives on the caller's path, whose depth the callee's forks left raised
                 return [self.merge_pure(P, res)]
             return res
         finally:
@@ -1936,7 +1974,9 @@ class Engine(object):
             elif rk == "self":
                 result = args[0]
             elif callable(rk):
-                result = rk(self, Q)
+                # a summary may compute its result value from the ARGUMENTS of the call (third parameter)
+                import inspect
+                result = rk(self, Q, args) if len(inspect.signature(rk).parameters) >= 3 else rk(self, Q)
             else:
                 result = self.sym("ret_" + f.name, rk)
                 if isinstance(result, (Ref, SList)):
